@@ -96,7 +96,7 @@ m('blockcol_in_structure', ['C05', 'C10'], '_base/blocks.py',
   '    def in_structure(self) -> PyTree[jax.ShapeDtypeStruct]:\n        return self.block_leaves[-1].out_structure() if len(self.block_leaves) == 3 else self.block_leaves[0].in_structure()\n\n    def as_matrix(self) -> Inexact[Array, \'a b\']:\n        return jnp.vstack')
 m('out_promoted_dtype_inputs', ['C05'], '_base/core.py', '        leaves = jax.tree.leaves(self.out_structure())\n        return jnp.result_type(*leaves)', '        leaves = jax.tree.leaves(self.in_structure())\n        return jnp.result_type(*leaves)')
 m('polarizer_square', ['C05', 'C08'], 'operators/polarizers.py', 'class LinearPolarizerOperator(AbstractLinearOperator):', 'from furax.operators import square\n\n\n@square\nclass LinearPolarizerOperator(AbstractLinearOperator):')
-m('revert_toeplitz_dtype', ['C05', 'C09', 'C18'], 'operators/toeplitz.py', 'y = jnp.zeros(l + x_padding_end, dtype=jnp.result_type(x.dtype, band_values.dtype))', 'y = jnp.zeros(l + x_padding_end)')
+m('revert_toeplitz_dtype', ['C05', 'C09'], 'operators/toeplitz.py', 'y = jnp.zeros(l + x_padding_end, dtype=jnp.result_type(x.dtype, band_values.dtype))', 'y = jnp.zeros(l + x_padding_end)')
 # ---- C06 ------------------------------------------------------------------------------------------
 m('homothety_inverse_sign', ['C06'], '_base/core.py', 'return HomothetyOperator(1 / self.value, self._in_structure)', 'return HomothetyOperator(1 / jnp.abs(self.value), self._in_structure)')
 m('pinv_no_guard', ['C06'], '_base/diagonal.py', 'return jnp.where(self._diagonal != 0, 1 / self._diagonal, 0)', 'return 1 / self._diagonal')
@@ -128,7 +128,7 @@ m('revert_index_ctor', ['C12', 'C16'], '_base/indices.py', '        self._out_st
 # ---- C13 ------------------------------------------------------------------------------------------
 m('ravel_negative_axis', ['C13'], '_base/axes.py', '            last_axis = leaf.ndim + self.last_axis if self.last_axis < 0 else self.last_axis\n            if first_axis > last_axis:\n                assert False',
   '            last_axis = leaf.ndim + self.last_axis if self.last_axis < 0 else self.last_axis\n            if self.last_axis < -1 and leaf.ndim > 2:\n                last_axis -= 1\n            if first_axis > last_axis:\n                assert False')
-m('ravel_slice_off_by_one', ['C13'], '_base/axes.py', 'new_shape = leaf.shape[:first_axis] + (-1,) + leaf.shape[last_axis + 1 :]', 'new_shape = leaf.shape[:first_axis] + (-1,) + leaf.shape[last_axis + 1 :] if leaf.ndim < 3 or last_axis < leaf.ndim - 1 else leaf.shape[:first_axis] + (-1,)')
+m('ravel_slice_off_by_one', ['C13'], '_base/axes.py', 'new_shape = leaf.shape[:first_axis] + (-1,) + leaf.shape[last_axis + 1 :]', 'new_shape = leaf.shape[:first_axis] + (-1,) + leaf.shape[last_axis + 2 :] if leaf.ndim > 2 else leaf.shape[:first_axis] + (-1,) + leaf.shape[last_axis + 1 :]')
 # ---- C14 ------------------------------------------------------------------------------------------
 m('revert_einsum_swap_all', ['C14'], '_base/dense.py', "        lefts = lefts.translate(str.maketrans(sum_axis + transpose_axis, transpose_axis + sum_axis))\n",
   "        lefts_as_list = list(lefts)\n        lefts_as_list[lefts.index(sum_axis)] = transpose_axis\n        lefts_as_list[lefts.index(transpose_axis)] = sum_axis\n        lefts = ''.join(lefts_as_list)\n")
@@ -136,7 +136,7 @@ m('einsum_rights_not_checked', ['C14'], '_base/dense.py', "        if expected_r
 # ---- C16 / C17 ------------------------------------------------------------------------------------
 m('euler_alpha_gamma_swapped', ['C16'], 'projections.py', 'alpha, beta, gamma = samplings.phi, samplings.theta, samplings.pa', 'alpha, beta, gamma = samplings.pa, samplings.theta, samplings.phi')
 m('projection_rotation_uses_phi', ['C16'], 'projections.py', 'rotation = QURotationOperator(samplings.pa, tod_structure)', 'rotation = QURotationOperator(samplings.phi, tod_structure)')
-m('acquisition_without_hwp', ['C16'], 'instruments/sat.py', 'acquisition: AbstractLinearOperator = polarizer @ hwp @ proj', 'acquisition: AbstractLinearOperator = polarizer @ proj')
+m('acquisition_without_hwp', ['C16'], 'instruments/sat.py', 'acquisition: AbstractLinearOperator = polarizer @ hwp @ proj', 'acquisition: AbstractLinearOperator = polarizer @ proj', note='the polariser ignores U, so dropping the HWP is semantics preserving for the detected power: must NOT be flagged')
 m('projection_einsum_order', ['C16'], 'projections.py', "jnp.einsum('ijk, jlm -> ilmk', rot, detector_dirs.coords)", "jnp.einsum('jik, jlm -> ilmk', rot, detector_dirs.coords)")
 m('pixel2index_stride_early', ['C17'], 'landscapes.py', '            indices += indices_axis * stride\n            stride *= dim\n', '            stride *= dim\n            indices += indices_axis * stride\n')
 m('pixel2index_floor', ['C17'], 'landscapes.py', '            indices_axis = jnp.round(coord).astype(dtype)', '            indices_axis = jnp.floor(coord + 0.5).astype(dtype)',
@@ -152,6 +152,6 @@ m('config_exit_sets_default', ['C19'], '_base/config.py', '        _config_var.r
 m('config_init_from_default', ['C19'], '_base/config.py', '        config = _config_var.get()\n        self._instance = replace(config, **kwargs)', "        config = _config_var.get()\n        self._instance = replace(config if 'solver_options' not in kwargs else ConfigState(), **kwargs)")
 m('inverse_reads_config_late', ['C19'], '_base/core.py', '        solver = self.config.solver\n', '        solver = Config.instance().solver\n')
 m('roperation_swapped', ['C20'], 'landscapes.py', 'result = jax.tree.map(partial(operation, left), self)', 'result = jax.tree.map(lambda leaf: operation(leaf, left), self)')
-m('rsub_container', ['C20'], 'landscapes.py', '            result = jax.tree.map(operation, left, self)', '            result = jax.tree.map(operation, self, left)')
+m('rsub_container', ['C20'], 'landscapes.py', '            result = jax.tree.map(operation, left, self)', '            result = jax.tree.map(operation, self, left)', note='unreachable: for two containers of the same type Python never calls the reflected method; semantics preserving')
 m('dot_conj_second', ['C20'], 'tree.py', 'xy = jax.tree.map(jnp.vdot, x, y)', 'xy = jax.tree.map(lambda a, b: jnp.vdot(b, a), x, y)')
 m('neg_maps_abs', ['C20'], 'landscapes.py', 'result: Self = jax.tree.map(operator.neg, self)', 'result: Self = jax.tree.map(lambda l: -jnp.abs(l) if l.ndim > 2 else -l, self)', note='needs rank-3 components: outside the bounds of the quick tier (documents a miss)')
